@@ -43,7 +43,7 @@ fn main() {
                 seed,
                 start: Instant::now(),
                 known: KnownFindings::load(),
-                replay_dir: format!("{}/replays", VERIF),
+                replay_dir: format!("{}/replays", out_dir()),
             };
             let c2 = (ctx.id.clone(), ctx.replay_dir.clone());
             engine::set_hang_handler(Box::new(move |desc: &str| {
